@@ -5,7 +5,7 @@ import scaledrive
 SCALED = ["C17_Mdiff", "C17_Mconv", "C17_Mup", "C17_Mupalt", "C17_Msrc", "C17_Rsrc", "C17_Mbc", "C17_Rbc",
           "C17_ghost", "C17_divu", "C17_volume", "C17_linmean", "C17_upmean", "C17_grad", "C17_tvd"]
 LINEAR = ["C17_LinearDiff", "C17_LinearConv", "C17_LinearUp", "C17_LinearSrc"]
-for c in SCALED + LINEAR + ["C17_solution"]:
+for c in SCALED + LINEAR + ["C17_solution", "C17_Decades"]:
     opscheck.NEEDS[c] = []
 
 
@@ -14,7 +14,7 @@ def observe(cfg, want):
 
 
 def clauses_for(cfg):
-    return SCALED + LINEAR + ["C17_solution"]
+    return SCALED + LINEAR + ["C17_solution", "C17_Decades"]
 
 
 def run(tier, seed):
